@@ -392,10 +392,17 @@ func execHTML(input string) Result { return execCase(input, false) }
 // real preprocess() - see req.go.
 func execReq(input string) Result { return execCase(input, true) }
 
+var viaArchiver bool // set by the htmlarch driver's Setup: the page is fetched by the real archiver
+
 func execCase(input string, pipeline bool) Result {
 	var c Case
 	if err := json.Unmarshal([]byte(input), &c); err != nil {
 		panic("bad html input: " + err.Error())
+	}
+	if viaArchiver {
+		// the page lives on the local origin
+		c.Page.S, c.Page.A = "http", archHost
+		c.St.Depth, c.St.Status, c.Chain, c.LocF, c.RSt = 0, 200, nil, nil, nil
 	}
 	body := c.render()
 	tags := append([]string{"stream-" + c.Stream}, c.Tags...)
@@ -413,7 +420,11 @@ func execCase(input string, pipeline bool) Result {
 	var perr string
 	var pipe *pipeObs
 	if pipeline {
-		pipe = runPipeline(&c, body)
+		if viaArchiver {
+			pipe = runArch(&c, body)
+		} else {
+			pipe = runPipeline(&c, body)
+		}
 		pa, po, perr = pipe.assets, pipe.outlinks, pipe.err
 	} else {
 		pa, po, perr = runPost(&c, body)
@@ -546,6 +557,10 @@ func execCase(input string, pipeline bool) Result {
 		if strings.HasPrefix(t, "plant-") {
 			kinds++
 		}
+	}
+	if viaArchiver {
+		due := !c.Cfg.NoAssets || c.St.Hops < c.Cfg.MaxHops
+		return Result{Term: term, Tags: tags, Nontrivial: len(plants) >= 3 && due}
 	}
 	if pipeline {
 		built := 0
